@@ -25,13 +25,13 @@ def seq(tests, qchecks=600, tchecks=6000, qshards=8, per_test=None, **extra):
 SCRIPT = (4, 120, 16, 1500)   # scheduled scripts: cheap per case, fewer cases
 
 CHECKS = {
-    "C01": seq(["TestC01"]),
+    "C01": seq(["TestC01"], fuzz={"FuzzC01Body": 240}),
     "C02": seq(["TestC02Seq", "TestC02Race", "TestC02Contend"], per_test={"TestC02Race": SCRIPT, "TestC02Contend": (4, 25, 16, 600)}),
     "C03": seq(["TestC03"], qchecks=150, tchecks=3000, qshards=8),
     "C04": seq(["TestC04Clock", "TestC04Bucket", "TestC04Reopen", "TestC04Race"], per_test={"TestC04Race": (4, 120, 16, 3000), "TestC04Clock": (2, 3000, 8, 200000), "TestC04Reopen": (4, 40, 16, 1500)}),
     "C05": seq(["TestC05"]),
     "C06": seq(["TestC06"]),
-    "C07": seq(["TestC07"]),
+    "C07": seq(["TestC07"], fuzz={"FuzzC07Xattr": 240}),
     "C08": seq(["TestC08Seq", "TestC08Order"], per_test={"TestC08Order": SCRIPT}),
     "C09": seq(["TestC09Seq", "TestC09Gap"], per_test={"TestC09Gap": SCRIPT}),
     "C10": seq(["TestC10"], qchecks=40, tchecks=150, level="fault_enumeration"),
@@ -41,7 +41,7 @@ CHECKS = {
     "C14": seq(["TestC14", "TestC14Window"], qchecks=1, tchecks=6, qshards=4, per_test={"TestC14Window": (3, 3, 9, 12)}),
     "C15": seq(["TestC15"], qchecks=20, tchecks=400, qshards=8),
     "C17": seq(["TestC17", "TestC17Race"], per_test={"TestC17Race": (4, 120, 16, 3000)}),
-    "C18": seq(["TestC18Seq", "TestC18Race"], qchecks=400, per_test={"TestC18Race": SCRIPT}),
+    "C18": seq(["TestC18Seq", "TestC18Race"], qchecks=400, fuzz={"FuzzC18Path": 240}, per_test={"TestC18Race": SCRIPT}),
     "C19": seq(["TestC19"]),
     "C20": seq(["TestC20"], qchecks=3, tchecks=40, qshards=6),
     "C16": seq(["TestC16"], qchecks=20, tchecks=300, qshards=6),
